@@ -157,7 +157,7 @@ func main() {
 			}
 		}
 		c.Part("file-edits")
-		c.Bound("all %d CCTV vectors and 8 generated files (all recipient types, binary and armored): every truncation, deletion, duplication, and substitution/insertion from 13 byte values at every position of the first 1300 and last 120 bytes (whole file when shorter), through age.Decrypt (and armor.NewReader) with the vector's identities over a counting source", len(vecs))
+		c.Bound("all %d CCTV vectors and 8 generated files (all recipient types, binary and armored): every truncation, deletion, duplication, and substitution/insertion from 13 byte values at every position of the first 1300 and last 120 bytes (thorough: 6000 / 700; whole file when shorter), through age.Decrypt (and armor.NewReader) with the vector's identities over a counting source", len(vecs))
 		runDecrypt := func(data []byte, armored bool, ids []age.Identity) (res lab.DecResult, src *countingSource) {
 			src = &countingSource{data: data}
 			res = lab.Decrypt(src, armored, 0, ids...)
@@ -172,7 +172,11 @@ func main() {
 			}
 			L := len(v.file)
 			nEdits := 0
-			forEdits(v.file, func(p int) bool { return p < 1300 || p > L-120 }, func(ei int, data []byte) {
+			head, tail := 1300, 120
+			if c.Thorough() {
+				head, tail = 6000, 700
+			}
+			forEdits(v.file, func(p int) bool { return p < head || p > L-tail }, func(ei int, data []byte) {
 				nEdits++
 				id := fmt.Sprintf("%s/e%d", v.name, ei)
 				if c.Replaying() && !c.Want(id) {
